@@ -1,6 +1,7 @@
 // ---- shims for U-ORPHAN: std string functions over the text (assumed contracts) ----
 #[verifier::external_body] pub struct TypeVar { _p: u32 }
 // position of the first "::" in s, if any
+#[verifier::opaque]     // the proofs never look inside (and a failing proof must not wander off into character arithmetic)
 pub open spec fn is_sep_at(s: Seq<char>, i: int) -> bool { 0 <= i && i + 2 <= s.len() && s[i] == ':' && s[i + 1] == ':' }
 pub open spec fn first_sep(s: Seq<char>) -> Option<int> {
     if exists|i: int| is_sep_at(s, i) {
